@@ -74,6 +74,10 @@ KIND_OF_METHOD.update({
     'group': PLAIN, 'groups': 'tuple', 'groupdict': 'dict', 'start': PLAIN, 'end': PLAIN, 'span': 'tuple',
     'quantize': PLAIN, 'to_integral_value': PLAIN, 'normalize': PLAIN, 'as_tuple': 'tuple', 'is_nan': PLAIN,
     'encode': 'bytes', 'format': PLAIN, 'format_map': PLAIN, 'join': PLAIN,
+    'create_decimal': PLAIN, 'create_decimal_from_float': PLAIN, 'to_integral': PLAIN, 'to_integral_exact': PLAIN,
+    # compiled regular expressions
+    'search': 'match-object', 'match': 'match-object', 'fullmatch': 'match-object', 'findall': 'list',
+    'finditer': 'iterator', 'sub': PLAIN, 'subn': 'tuple',
     '__str__': PLAIN, '__repr__': PLAIN,
 })
 KIND_OF_EXT = {
